@@ -1,5 +1,6 @@
 import Swat4.Lemmas.Rest
 import Swat4.Lemmas.RestBody
+import Swat4.Lemmas.RestSlug
 import Swat4.Lemmas.Styles
 import Swat4.Lemmas.Clean
 import Swat4.Model.Rest
@@ -385,16 +386,6 @@ def StoredServer (st : SrvState) (r : Resp) : Prop :=
       r.body = some (.server (serverJsonOf rec)) ∧ r.effect = .none) ∧
   (r.status ≠ 200 → r.body = none)
 
-theorem StoredDetail.toStoredBody {st : SrvState} {r : Resp} (h : StoredDetail st r) : StoredBody st r := by
-  refine ⟨fun h2 => ?_, h.2⟩
-  obtain ⟨w, qp, rec, hst, hw, hb, he⟩ := h.1 h2
-  exact ⟨w, qp, rec, hst, hw, by simp only [Resp.hostnames, hb]; rfl, he⟩
-
-theorem StoredServer.toStoredBody {st : SrvState} {r : Resp} (h : StoredServer st r) : StoredBody st r := by
-  refine ⟨fun h2 => ?_, h.2⟩
-  obtain ⟨w, qp, rec, hst, hw, hb, he⟩ := h.1 h2
-  exact ⟨w, qp, rec, hst, hw, by simp only [Resp.hostnames, hb]; rfl, he⟩
-
 /-- **"200 with the stored data", every member, `GET`** — for every route of the model
 (`viewExecute st`, `viewServerIP ip port st`, `viewServer address st = some r`): the body of a 200 is
 `serverDetailJsonOf` of the record stored under the address (`info`, `players`, `objectives`; what
@@ -441,15 +432,21 @@ theorem add_body_full (st : SrvState) (r : Resp) (hr : AddAnswer st r) : StoredS
 hostname `h` of a record with the details bit (`hostname_html = toHTML h`, `hostname_plain =
 clean h`); a 204, 404 or 400 carries no server data.  The two hostname members; the whole body:
 `view_body_full`. -/
-theorem view_body (st : SrvState) (r : Resp) (hr : ViewAnswer st r) : StoredBody st r :=
-  (view_body_full st r hr).toStoredBody
+theorem view_body (st : SrvState) (r : Resp) (hr : ViewAnswer st r) : StoredBody st r := by
+  have h := view_body_full st r hr
+  refine ⟨fun h2 => ?_, h.2⟩
+  obtain ⟨w, qp, rec, hst, hw, hb, he⟩ := h.1 h2
+  exact ⟨w, qp, rec, hst, hw, by simp only [Resp.hostnames, hb]; rfl, he⟩
 
 /-- **"200 with the stored data", `POST`** — for every route of the model (`addExecute a st`,
 `addServerIP ip port st`, `addServer body st = some r`): a 200 answer is made from the stored
 hostname of a record with the details bit and nothing is stored or queued (`effect = .none`); a
 202, 410 or 400 carries no server data.  The whole body: `add_body_full`. -/
-theorem add_body (st : SrvState) (r : Resp) (hr : AddAnswer st r) : StoredBody st r :=
-  (add_body_full st r hr).toStoredBody
+theorem add_body (st : SrvState) (r : Resp) (hr : AddAnswer st r) : StoredBody st r := by
+  have h := add_body_full st r hr
+  refine ⟨fun h2 => ?_, h.2⟩
+  obtain ⟨w, qp, rec, hst, hw, hb, he⟩ := h.1 h2
+  exact ⟨w, qp, rec, hst, hw, by simp only [Resp.hostnames, hb]; rfl, he⟩
 
 /-- **Every 200 of either handler has inert markup and a code-free plain name**: the answer has
 both members, `hostname_html` is accepted by the reference tokenizer and `hostname_plain` contains
@@ -709,9 +706,6 @@ def agrees (ip : IP4) (port : Int) (e : RestSpec.Entity) (w : RestSpec.Want) (a 
   | .enumSlug t f => ∃ v, e.get f = some (.int v) ∧
       ((t = RestSpec.coopStatusNames ∧ a = slugAtom (Slug.make (coopStatusString v))) ∨
        (t = RestSpec.objectiveStatusNames ∧ a = slugAtom (Slug.make (objectiveStatusString v))))
-
-theorem atom_boolToInt (b : Bool) : JAtom.int ↑(boolToInt b) = JAtom.int (if b then 1 else 0) := by
-  cases b <;> rfl
 
 /-- all members of a document against a table: same names in the same order, every value as the table asks -/
 def agreesAll (ip : IP4) (port : Int) (e : RestSpec.Entity) :
@@ -1026,18 +1020,6 @@ theorem facts_enum_ok :
     RestSpec.objectiveStatusNames.all (fun p => objectiveStatusString p.1 == p.2.toList) = true := by
   decide
 
-set_option maxRecDepth 100000 in
-theorem slug_table_shape : Slug.unidecodeLatin1.length = 128 ∧
-    Slug.unidecodeLatin1.all (fun s => s.toList.all fun c => c.toNat < 128) = true := by decide
-
-set_option maxRecDepth 100000 in
-theorem slug_latin1 : (List.range 256).map (fun c => Slug.make ['x', Char.ofNat c, 'y']) =
-    Facts.restSlugLatin1.map (fun s => some s.toList) := by decide
-
-set_option maxRecDepth 100000 in
-theorem slug_probes : Facts.restSlugProbes.map (fun s => Slug.make s.toList) =
-    Facts.restSlugProbeResults.map (fun s => some s.toList) := by decide
-
 /-- **`slug.Make` as the REST model calls it, character by character**: for every code point `c`
 of Latin-1 the slug of the game type `x<c>y` computed by the real `NewServerFromDomain` (recorded on
 every run) is what `Slug.make` computes — this covers `enSub`/`defaultSub` (`&`, `@`, the quotes),
@@ -1054,6 +1036,6 @@ theorem slug_facts_ok :
     Slug.unidecodeLatin1.length = 128 ∧
     Slug.unidecodeLatin1.all (fun s => s.toList.all fun c => c.toNat < 128) = true ∧
     Slug.make ['x', Char.ofNat 0x100, 'y'] = none ∧ Slug.make ['x', Char.ofNat 0xFFFD, 'y'] = none := by
-  refine ⟨slug_latin1, by decide, slug_probes, slug_table_shape.1, slug_table_shape.2, by decide, by decide⟩
+  refine ⟨Slug.slug_latin1, by decide, Slug.slug_probes, Slug.slug_table_shape.1, Slug.slug_table_shape.2, by decide, by decide⟩
 
 end Swat4.C17
